@@ -237,13 +237,24 @@ def run(tier, seed):
         samples.append({"real_trace": recs[0]})
     if model_viol:
         print("MODEL-DRIFT C20: Stats.tla violates its own invariants %s" % model_viol)
+    # the warm-up schedule inside a whole training run (TrainingRun.tla; replay + real RL4COTrainer.fit)
+    from . import c21_trainrun
+    tr_viol, tr_cov = c21_trainrun.violations(tier, seed)
+    viol += [v for v in tr_viol if v["property"] == "C20"]
+    states += tr_cov["states"]
+    transitions += tr_cov["transitions"]
+    traces += tr_cov["tlc_validated_traces"]
+    replayed += tr_cov["replayed_actions"]
     n_new, n_known = verdict.report("C20", viol)
     cov = {"states": states, "transitions": transitions, "traces_validated_against_impl": replayed + traces,
+           "training_run": {k: tr_cov[k] for k in ("replayed_runs", "replayed_actions", "tlc_validated_traces", "fit_runs", "models")},
            "samples": samples[:6], "exhaustive": True, "replayed_calls": replayed, "real_histories": traces,
            "model_constants": CONFIGS[tier], "known_finding_witnesses": n_known,
            "explanation": "Stats.tla (Welford / EMA / warm-up as exact-rational state machines) model-checked for all histories "
                           "of the scope; each history replayed into the real classes with state comparison after every call; "
-                          "random longer histories of the real classes validated by StatsTrace.tla."}
+                          "random longer histories of the real classes validated by StatsTrace.tla. "
+                          "TrainingRun.tla: the warm-up weight along whole training runs (all runs of the scope replayed into the "
+                          "real REINFORCE module; real RL4COTrainer.fit runs validated by TrainingRunTrace.tla)."}
     verdict.write_evidence("C20", tier, seed, "model_checking", cov,
                            ["degenerate cases (count = 1, zero variance) are recorded, not judged",
                             "integer-valued batches so that exact sums are available to TLC"],
